@@ -10,6 +10,8 @@ import (
 	"mime/multipart"
 	"net/http"
 	"net/url"
+
+	"github.com/johannesboyne/gofakes3/internal/vsym"
 )
 
 // Recorder is the http.ResponseWriter handed to ServeHTTP.
@@ -82,6 +84,14 @@ func (q Req) Build() *http.Request {
 func Do(h http.Handler, q Req) *Recorder {
 	rec := NewRecorder()
 	h.ServeHTTP(rec, q.Build())
+	// cross-validation: what the client saw is compared between the symbolic
+	// executor's prediction and the native run of the same inputs
+	vsym.Observe("status", rec.Code())
+	vsym.Observe("error-code", rec.ErrCode())
+	if rec.Hdr.Get("Content-Type") != "application/xml" {
+		vsym.Observe("body", rec.Body)
+	}
+	vsym.Observe("content-length", rec.Hdr.Get("Content-Length"))
 	return rec
 }
 
